@@ -253,13 +253,14 @@ func c11Sched(r *engine.Run) {
 		{Name: "J3-run-vs-kill-vs-status", Jobs: []string{"incremental"}, Threads: [][]JobsOp{{{K: "run", J: 0}}, {{K: "kill", J: 0}}, {{K: "status"}}}},
 		{Name: "J4-cron-vs-manual", Jobs: []string{"incremental"}, Threads: [][]JobsOp{{{K: "run", J: 0}}, {{K: "manual", J: 0}}}},
 		{Name: "J5-fullsync-twice-retry", Jobs: []string{"fullsync"}, Threads: [][]JobsOp{{{K: "run", J: 0}}, {{K: "run", J: 0}}}},
+		{Name: "J9-two-fullsync-jobs-one-ticket", Jobs: []string{"fullsync", "fullsync"}, Threads: [][]JobsOp{{{K: "run", J: 0}}, {{K: "run", J: 1}, {K: "status"}}}},
 		{Name: "J7-same-job-twice-two-tickets", Jobs: []string{"incremental"}, Pool: 2, Threads: [][]JobsOp{{{K: "run", J: 0}}, {{K: "run", J: 0}}}},
 		{Name: "J8-cron-vs-manual-two-tickets", Jobs: []string{"incremental"}, Pool: 2, Threads: [][]JobsOp{{{K: "run", J: 0}}, {{K: "manual", J: 0}}}},
 		{Name: "J6-incr-and-full-and-status", Jobs: []string{"incremental", "fullsync"}, Threads: [][]JobsOp{{{K: "run", J: 0}}, {{K: "run", J: 1}}, {{K: "status"}, {K: "kill", J: 1}}}},
 	}
 	for _, sc := range scs {
 		bound := 2
-		if len(sc.Threads) > 2 || strings.Contains(sc.Name, "retry") {
+		if len(sc.Threads) > 2 || strings.Contains(sc.Name, "retry") || strings.Contains(sc.Name, "J9") {
 			bound = 1 // the fullsync retry loop re-queues itself while it waits: long executions
 		}
 		budget := 60
